@@ -20,10 +20,6 @@ func vfEffect3(i *AgentIPC, client *IPCClient, command string, seq uint64) error
 	return client.Send(&responseHeader{Seq: seq}, nil)
 }
 
-var vfCommands = [21]string{handshakeCommand, authCommand, eventCommand, forceLeaveCommand, joinCommand, membersCommand,
-	membersFilteredCommand, streamCommand, stopCommand, monitorCommand, leaveCommand, installKeyCommand, useKeyCommand,
-	removeKeyCommand, listKeysCommand, tagsCommand, queryCommand, respondCommand, statsCommand, getCoordinateCommand, "no-such-command"}
-
 type vfC24Req struct {
 	cmd       string
 	version   int32
